@@ -57,6 +57,12 @@ def ev_call(self, e, st):
                     continue
                 yield from construct(self, st1, name, vals, kw, e)
             return
+        if name == "deque" and not e.args:
+            s = st.fork()
+            d = self.alloc(s, "deque")
+            self.write_field(s, d, "deque", "items", Val(z3.Empty(Q), ("seq", "str")), line)
+            yield s, d
+            return
         if name in ("set", "dict", "list") and not e.args and not e.keywords:
             s = st.fork()
             yield s, self.alloc(s, "opaque")       # an empty fresh container whose content is not modelled
@@ -84,6 +90,13 @@ def ev_call(self, e, st):
             return
         if dotted == "math.isclose":
             yield from math_isclose(self, e, st)
+            return
+        if dotted == "re.sub":
+            for st1, vals in self.ev_list(list(e.args[:3]), st):
+                if isinstance(vals, Raise):
+                    yield st1, vals
+                    continue
+                yield st1, Val(z3.Function("re_sub", S, S, S, S)(vals[0].t, vals[1].t, vals[2].t), "str")
             return
         if dotted == "re.search":
             # re.search(pattern, text[, flags]) is not None  <=>  re_found(pattern, text)   (uninterpreted; trusted model)
@@ -604,10 +617,14 @@ def method_call(self, st, base, attr, args, node):
             yield st, Val(lower(base.t), "str")
             return
         if attr == "replace":
-            t = z3.ReplaceAll(base.t, args[0].t, args[1].t) if hasattr(z3, "ReplaceAll") else None
-            if t is None:
-                raise Unsupported("str.replace")
-            yield st, Val(t, "str")
+            # uninterpreted (chains of replace_all are undecided by both solvers): what matters is carried by audited axioms
+            yield st, Val(z3.Function("str_replace", S, S, S, S)(base.t, args[0].t, args[1].t), "str")
+            return
+        if attr == "split" and not args:
+            yield st, Val(z3.Function("str_split_ws", S, Q)(base.t), ("seq", "str"))
+            return
+        if attr == "strip" and not args:
+            yield st, Val(z3.Function("str_strip", S, S)(base.t), "str")
             return
         raise Unsupported(f"str.{attr}")
     # ---- containers on the heap
